@@ -76,19 +76,51 @@ def install_clock():
     return CLOCK
 
 
+def _attrs(o):
+    """Instance attributes of an object, whether it keeps them in a __dict__ or in __slots__; None if it has neither."""
+    d = None
+    if hasattr(o, "__dict__"):
+        d = dict(vars(o))
+    for klass in type(o).__mro__:
+        slots = klass.__dict__.get("__slots__", ())
+        if isinstance(slots, str):
+            slots = (slots,)
+        for name in slots or ():
+            if isinstance(name, str) and name not in ("__dict__", "__weakref__") and hasattr(o, name):
+                d = {} if d is None else d
+                d[name] = getattr(o, name)
+    return d
+
+
+_ADDR = None
+
+
+def _stable_repr(o):
+    """repr() without the memory address a default object repr carries"""
+    global _ADDR
+    if _ADDR is None:
+        import re
+
+        _ADDR = re.compile(r" at 0x[0-9a-fA-F]+")
+    return _ADDR.sub("", repr(o))
+
+
 def deep(o, depth=0):
     """toJs-like deep conversion into plain data (lists, dicts, scalars)."""
     if isinstance(o, (str, int, float, bool, type(None))):
         return o
     if depth > 12:
-        return repr(o)
+        return _stable_repr(o)
     if isinstance(o, (list, tuple)):
         return [deep(x, depth + 1) for x in o]
     if isinstance(o, dict):
         return {str(k): deep(v, depth + 1) for k, v in o.items()}
-    if hasattr(o, "__dict__"):
-        return {k: deep(v, depth + 1) for k, v in vars(o).items()}
-    return repr(o)
+    if isinstance(o, (set, frozenset)):
+        return sorted((deep(x, depth + 1) for x in o), key=repr)
+    a = _attrs(o)
+    if a is not None:
+        return {k: deep(v, depth + 1) for k, v in a.items()}
+    return _stable_repr(o)
 
 
 def global_fingerprint():
@@ -122,7 +154,7 @@ def _pkg_object(v):
     return (
         not isinstance(v, type)
         and getattr(t, "__module__", "").startswith("architecture_simulator")
-        and hasattr(v, "__dict__")
+        and _attrs(v) is not None
         and t.__name__ not in ("VirtualClock",)
     )
 
@@ -138,8 +170,9 @@ def _fp(v, depth=0):
         return v
     if isinstance(v, type):
         return v.__name__
-    if hasattr(v, "__dict__") and depth < 4:
-        return (type(v).__name__, tuple((k, _fp(x, depth + 1)) for k, x in sorted(vars(v).items())))
+    a = _attrs(v) if depth < 4 else None
+    if a is not None:
+        return (type(v).__name__, tuple((k, _fp(x, depth + 1)) for k, x in sorted(a.items())))
     return type(v).__name__
 
 
